@@ -377,7 +377,7 @@ where
 {
     #[inline(always)]
     fn rank(&self, symbol: Self::Item, i: usize) -> Option<usize> {
-        if i > self.n {
+        if self.n == 0 || i > self.n {
             return None;
         }
 
@@ -437,7 +437,18 @@ where
 {
     #[inline(always)]
     fn select(&self, symbol: Self::Item, i: usize) -> Option<usize> {
-        if COMPRESSED && self.codes_encode.as_ref().unwrap()[symbol.as_() as usize].len == 0 {
+        if self.n == 0 {
+            return None;
+        }
+
+        if !COMPRESSED && symbol > *self.sigma.as_ref().unwrap() {
+            return None;
+        }
+
+        if COMPRESSED
+            && (symbol.as_() >= self.codes_encode.as_ref().unwrap().len()
+                || self.codes_encode.as_ref().unwrap()[symbol.as_() as usize].len == 0)
+        {
             return None;
         }
 
